@@ -10,7 +10,9 @@
   argument `GenericArgument::Type [] [tparam n]` must not be bound to a const value.
 -/
 import DisjointImpls.Lemmas.RevSubLemmas
+import DisjointImpls.Lemmas.RevSubExact
 import DisjointImpls.MatchSchema
+import DisjointImpls.Group
 namespace DI
 
 /-! ## Theorems -/
@@ -123,5 +125,445 @@ theorem C10_every_field_rewritten :
 
 /-- the set of types with an `impl Substitute` is the one the model covers -/
 theorem C10_substitute_impls : MatchFacts.substituteMentions.map Prod.fst = MatchSchema.substituteImpls := by decide +kernel
+
+
+/-! ## Exactness: reverse substitution produces EXACTLY the re-expressions, one per way of choosing
+
+  Proofs in `Lemmas/RevSubExact.lean`. The vocabulary:
+
+  * `offered_rx σ v : List String` — the parameters OFFERED for a value `v`: those with an explicit entry `(p, v)` in σ, in
+    insertion order. For distinct keys (`C09_functional`) these are exactly the parameters bound to `v`
+    (`C10_offered_iff_bound`). A parameter with an `identity` entry is offered for nothing (finding D13, below).
+  * `IsReexpr_rx σ t r` — the declarative specification "`r` is a re-expression of `t`", defined by recursion on `t`
+    (`C10_reexpr_*` below spell out every case): going down from the root,
+      - a type parameter `tparam n` is looked up as the value `.ty (.tparam n)`, a const parameter `eparam n` as
+        `.ex (.eparam n)`, a node whose kind starts with `Type::` as `.ty node`, a node whose kind starts with `Expr::`
+        as `.ex node`; if something is offered for it, `r` is ONE of the offered parameters (`tparam p` resp. `eparam p`)
+        and nothing below is looked at (outermost occurrence wins);
+      - if nothing is offered, a parameter stays; `Ign`/`IgnL`/`Eq` nodes stay verbatim (nothing below is looked at);
+        every other node keeps kind and atoms and its children are re-expressed independently, position by position
+        (`IsReexprL_rx`);
+      - nodes of any other kind (paths, segments, generic arguments, lists, …) are never replaced as a whole.
+  * `reexprCount_rx σ t : Nat` — the product, over the outermost replaced sub-terms, of the number of offered parameters.
+  * `isReexpr_rx σ t r : Bool` — an executable checker of `IsReexpr_rx` that does not call `revSub`.
+
+  None of the exactness theorems needs a side condition on σ (the reverse map answers a query with exactly
+  `offered_rx σ v`, `reverseMap_find_eq_rx`); distinct keys are needed only to read "offered" as "bound" and for
+  `C10_nodup`. -/
+
+/-- for a substitution with distinct keys the parameters offered for a value are exactly the parameters bound to it -/
+theorem C10_offered_iff_bound (σ : Subst) (hσ : (σ.map Prod.fst).Nodup) (v : Val) (p : String) :
+    p ∈ offered_rx σ v ↔ lookup σ p = some v :=
+  mem_offered_iff_lookup_rx hσ
+
+/-- the reverse map built by the code answers a query for `v` with exactly the parameters offered for `v` -/
+theorem C10_reverse_map (σ : Subst) (v : Val) :
+    RevMap.find (reverseMap σ) v = if offered_rx σ v = [] then none else some (offered_rx σ v) :=
+  reverseMap_find_eq_rx σ v
+
+/-- **Exactness.** The results of reverse substitution are exactly the re-expressions: nothing is missing and nothing
+    else is produced. No side condition. -/
+theorem C10_exact (σ : Subst) (t r : T) : r ∈ revSub (reverseMap σ) t ↔ IsReexpr_rx σ t r :=
+  mem_revSub_reverseMap_iff_rx σ t r
+
+/-- the executable checker decides the specification, hence membership in the result -/
+theorem C10_exact_exec (σ : Subst) (t r : T) : isReexpr_rx σ t r = true ↔ r ∈ revSub (reverseMap σ) t := by
+  rw [isReexpr_iff_rx, C10_exact]
+
+/-- **Count.** The number of results is the product, over the outermost replaced sub-terms, of the number of parameters
+    offered for them. No side condition. -/
+theorem C10_count (σ : Subst) (t : T) : (revSub (reverseMap σ) t).length = reexprCount_rx σ t :=
+  length_revSub_reverseMap_rx σ t
+
+/-- **Exactly one re-expression per way of choosing, and nothing else**: for distinct keys the result list has no
+    repetition, its members are exactly the re-expressions, and its length is the number of ways of choosing. -/
+theorem C10_exactly_one_per_choice (σ : Subst) (hσ : (σ.map Prod.fst).Nodup) (t : T) :
+    (revSub (reverseMap σ) t).Nodup ∧ (∀ r, r ∈ revSub (reverseMap σ) t ↔ IsReexpr_rx σ t r) ∧
+      (revSub (reverseMap σ) t).length = reexprCount_rx σ t :=
+  ⟨C10_nodup σ hσ t, C10_exact σ t, C10_count σ t⟩
+
+/-- a `(Bounded, TraitBound)` pair: exactly the pairs of re-expressions -/
+theorem C10_bound_exact (σ : Subst) (b tr : T) (p : T × T) :
+    p ∈ substituteBound σ b tr ↔ IsReexpr_rx σ b p.1 ∧ IsReexpr_rx σ tr p.2 :=
+  mem_substituteBound_iff_rx σ b tr p
+
+theorem C10_bound_count (σ : Subst) (b tr : T) :
+    (substituteBound σ b tr).length = reexprCount_rx σ b * reexprCount_rx σ tr :=
+  length_substituteBound_rx σ b tr
+
+theorem C10_bound_nodup (σ : Subst) (hσ : (σ.map Prod.fst).Nodup) (b tr : T) : (substituteBound σ b tr).Nodup :=
+  substituteBound_nodup_rx hσ b tr
+
+/-- every re-expression instantiates back to the term (soundness of the specification; side conditions of
+    `C10_roundtrip`) -/
+theorem C10_reexpr_roundtrip (σ : Subst) (hσ : (σ.map Prod.fst).Nodup) (t : T) (hfix : Untouched σ t) (r : T)
+    (h : IsReexpr_rx σ t r) : inst σ r = t :=
+  C10_roundtrip σ hσ t hfix r ((C10_exact σ t r).2 h)
+
+/-- under an all-`identity` substitution the only re-expression is the term itself -/
+theorem C10_exact_identity (σ : Subst) (h : allIdentity σ = true) (t r : T) : IsReexpr_rx σ t r ↔ r = t := by
+  rw [← C10_exact, C10_identity σ h t, List.mem_singleton]
+
+/-! ### The specification, case by case -/
+
+/-- a type parameter: replaced by one of the parameters offered for it, kept if nothing is offered -/
+theorem C10_reexpr_tparam (σ : Subst) (n : String) (r : T) :
+    IsReexpr_rx σ (.tparam n) r ↔
+      if offered_rx σ (.ty (.tparam n)) = [] then r = .tparam n
+      else ∃ p, p ∈ offered_rx σ (.ty (.tparam n)) ∧ r = .tparam p :=
+  isReexprBy_tparam_rx _ n r
+
+/-- a const parameter -/
+theorem C10_reexpr_eparam (σ : Subst) (n : String) (r : T) :
+    IsReexpr_rx σ (.eparam n) r ↔
+      if offered_rx σ (.ex (.eparam n)) = [] then r = .eparam n
+      else ∃ p, p ∈ offered_rx σ (.ex (.eparam n)) ∧ r = .eparam p :=
+  isReexprBy_eparam_rx _ n r
+
+/-- a type-kind node: replaced as a whole by one of the parameters offered for it as a `.ty` value, otherwise rebuilt from
+    re-expressed children -/
+theorem C10_reexpr_type_node (σ : Subst) (k : String) (as : List String) (ks : List T) (r : T)
+    (hT : isTypeKind k = true) :
+    IsReexpr_rx σ (.node k as ks) r ↔
+      if offered_rx σ (.ty (.node k as ks)) = [] then ∃ rs, r = .node k as rs ∧ IsReexprL_rx σ ks rs
+      else ∃ p, p ∈ offered_rx σ (.ty (.node k as ks)) ∧ r = .tparam p :=
+  isReexprBy_node_ty_rx as ks r hT
+
+/-- an expression-kind node: the same with `.ex` values and const parameters -/
+theorem C10_reexpr_expr_node (σ : Subst) (k : String) (as : List String) (ks : List T) (r : T)
+    (hT : isTypeKind k = false) (hE : isExprKind k = true) :
+    IsReexpr_rx σ (.node k as ks) r ↔
+      if offered_rx σ (.ex (.node k as ks)) = [] then ∃ rs, r = .node k as rs ∧ IsReexprL_rx σ ks rs
+      else ∃ p, p ∈ offered_rx σ (.ex (.node k as ks)) ∧ r = .eparam p :=
+  isReexprBy_node_ex_rx as ks r hT hE
+
+/-- `Ign` / `IgnL` / `Eq` nodes are kept verbatim -/
+theorem C10_reexpr_verbatim_node (σ : Subst) (k : String) (as : List String) (ks : List T) (r : T)
+    (hT : isTypeKind k = false) (hE : isExprKind k = false) (hV : isVerbatimKind k = true) :
+    IsReexpr_rx σ (.node k as ks) r ↔ r = .node k as ks :=
+  isReexprBy_node_verbatim_rx as ks r hT hE hV
+
+/-- a node of any other kind is never replaced as a whole (whatever σ contains): only its children are re-expressed -/
+theorem C10_reexpr_other_node (σ : Subst) (k : String) (as : List String) (ks : List T) (r : T)
+    (hT : isTypeKind k = false) (hE : isExprKind k = false) (hV : isVerbatimKind k = false) :
+    IsReexpr_rx σ (.node k as ks) r ↔ ∃ rs, r = .node k as rs ∧ IsReexprL_rx σ ks rs :=
+  isReexprBy_node_other_rx as ks r hT hE hV
+
+/-- children: position by position, independently -/
+theorem C10_reexpr_children_nil (σ : Subst) (rs : List T) : IsReexprL_rx σ [] rs ↔ rs = [] :=
+  isReexprByL_nil_rx _ rs
+
+theorem C10_reexpr_children_cons (σ : Subst) (t : T) (ts rs : List T) :
+    IsReexprL_rx σ (t :: ts) rs ↔ ∃ r rs', rs = r :: rs' ∧ IsReexpr_rx σ t r ∧ IsReexprL_rx σ ts rs' :=
+  isReexprByL_cons_rx _ t ts rs
+
+/-- children, pointwise: the same number of children, and every child a re-expression of the child at its position -/
+theorem C10_reexpr_children_pointwise (σ : Subst) (ks rs : List T) :
+    IsReexprL_rx σ ks rs ↔
+      rs.length = ks.length ∧ ∀ (i : Nat) (h1 : i < ks.length) (h2 : i < rs.length), IsReexpr_rx σ ks[i] rs[i] :=
+  isReexprByL_iff_getElem_rx ks rs
+
+/-! ### The count, case by case -/
+
+theorem C10_count_tparam (σ : Subst) (n : String) :
+    reexprCount_rx σ (.tparam n) =
+      if offered_rx σ (.ty (.tparam n)) = [] then 1 else (offered_rx σ (.ty (.tparam n))).length :=
+  reexprCount_tparam_rx σ n
+
+theorem C10_count_eparam (σ : Subst) (n : String) :
+    reexprCount_rx σ (.eparam n) =
+      if offered_rx σ (.ex (.eparam n)) = [] then 1 else (offered_rx σ (.ex (.eparam n))).length :=
+  reexprCount_eparam_rx σ n
+
+/-- a replaced node counts the parameters offered for it, a verbatim node counts 1, every other node the product of the
+    counts of its children (`reexprCountL_rx`) -/
+theorem C10_count_node (σ : Subst) (k : String) (as : List String) (ks : List T) :
+    reexprCount_rx σ (.node k as ks) =
+      if isTypeKind k then
+        if offered_rx σ (.ty (.node k as ks)) = [] then reexprCountL_rx σ ks
+        else (offered_rx σ (.ty (.node k as ks))).length
+      else if isExprKind k then
+        if offered_rx σ (.ex (.node k as ks)) = [] then reexprCountL_rx σ ks
+        else (offered_rx σ (.ex (.node k as ks))).length
+      else if isVerbatimKind k then 1
+      else reexprCountL_rx σ ks :=
+  reexprCount_node_rx σ k as ks
+
+theorem C10_count_children_nil (σ : Subst) : reexprCountL_rx σ [] = 1 := reexprCountL_nil_rx σ
+
+theorem C10_count_children_cons (σ : Subst) (t : T) (ts : List T) :
+    reexprCountL_rx σ (t :: ts) = reexprCount_rx σ t * reexprCountL_rx σ ts :=
+  reexprCountL_cons_rx σ t ts
+
+/-- there is always at least one way of choosing -/
+theorem C10_count_pos (σ : Subst) (t : T) : 0 < reexprCount_rx σ t := reexprCount_pos_rx σ t
+
+/-- the `subs.is_empty()` branches of the `Substitute` impls (model: `ns.isEmpty`) are dead: the reverse map never
+    answers with an empty list -/
+theorem C10_empty_hit_dead (σ : Subst) (v : Val) : RevMap.find (reverseMap σ) v ≠ some [] :=
+  reverseMap_no_empty_hit_rx σ v
+
+/-! ### Deviations of the code from the naive reading "all ways of writing the bound over the general parameters"
+
+  Each deviation has a decided counterexample (a term `r` with `inst σ r = t` that is NOT produced) and the corrected
+  statement that is true of the code. -/
+
+/-- (a) D13, corrected statement, part 1: everything the code produces is a re-expression in the naive reading, in which a
+    parameter with an `identity` entry is also offered for itself (`IsReexprNaive_rx`, offer `offeredNaive_rx`) -/
+theorem C10_naive_of_exact (σ : Subst) (t r : T) (h : r ∈ revSub (reverseMap σ) t) : IsReexprNaive_rx σ t r :=
+  isReexprNaive_of_isReexpr_rx σ t r ((C10_exact σ t r).1 h)
+
+/-- (a) D13, part 2: if no parameter with an `identity` entry is the value of another parameter (`noIdentityAlias_rx`,
+    executable) the code produces exactly the naive re-expressions -/
+theorem C10_exact_naive_partial (σ : Subst) (h : noIdentityAlias_rx σ = true) (t r : T) :
+    r ∈ revSub (reverseMap σ) t ↔ IsReexprNaive_rx σ t r := by
+  rw [C10_exact, isReexprNaive_iff_of_noAlias_rx h]
+
+/-- (a) D13, part 3: the side condition is necessary — with distinct keys, an aliased identity parameter always loses a
+    naive re-expression: the parameter itself, left in place (which instantiates back to itself) -/
+theorem C10_identity_alias_loses (σ : Subst) (hσ : (σ.map Prod.fst).Nodup) (h : noIdentityAlias_rx σ = false) :
+    ∃ t, IsReexprNaive_rx σ t t ∧ t ∉ revSub (reverseMap σ) t ∧ inst σ t = t := by
+  obtain ⟨t, h1, h2, h3⟩ := exists_lost_of_alias_rx hσ h
+  exact ⟨t, h1, fun hm => h2 ((C10_exact σ t t).1 hm), h3⟩
+
+/-- (b) outermost wins, corrected statement: a type-kind node for which something is offered is replaced as a whole by
+    exactly the offered parameters, in insertion order; values occurring inside it are not rewritten -/
+theorem C10_outermost_wins_type (σ : Subst) (k : String) (as : List String) (ks : List T)
+    (hT : isTypeKind k = true) (h : offered_rx σ (.ty (.node k as ks)) ≠ []) :
+    revSub (reverseMap σ) (.node k as ks) = (offered_rx σ (.ty (.node k as ks))).map .tparam :=
+  revSub_reverseMap_ty_hit_rx σ as ks hT h
+
+theorem C10_outermost_wins_expr (σ : Subst) (k : String) (as : List String) (ks : List T)
+    (hT : isTypeKind k = false) (hE : isExprKind k = true) (h : offered_rx σ (.ex (.node k as ks)) ≠ []) :
+    revSub (reverseMap σ) (.node k as ks) = (offered_rx σ (.ex (.node k as ks))).map .eparam :=
+  revSub_reverseMap_ex_hit_rx σ as ks hT hE h
+
+/-- (c)+(d) kinds, corrected statement: the value `v` of an entry `(p, .ty v)`, taken as a term, is re-expressed by `p`
+    exactly if `v` is a type parameter or a type-kind node (`tyReplaceable_rx`); a `.ty` value that is an
+    expression-kind node or a node of another kind (a path, a generic argument, …) is never recognised -/
+theorem C10_value_reexpressed_type (σ : Subst) (p : String) (v : T) (h : (p, Val.ty v) ∈ σ) :
+    .tparam p ∈ revSub (reverseMap σ) v ↔ tyReplaceable_rx v = true :=
+  tparam_mem_revSub_value_rx h
+
+/-- (c)+(d) the same for `.ex` values: recognised exactly on const parameters and expression-kind nodes -/
+theorem C10_value_reexpressed_expr (σ : Subst) (p : String) (v : T) (h : (p, Val.ex v) ∈ σ) :
+    .eparam p ∈ revSub (reverseMap σ) v ↔ exReplaceable_rx v = true :=
+  eparam_mem_revSub_value_rx h
+
+
+/-! ### Closed examples: non-vacuity and the decided counterexamples of the deviations -/
+
+namespace ExC10
+/-! trees for the closed examples (shapes as `syn` prints them, as `Ex11` in Props/C11.lean) -/
+def leaf (s : String) : T := .node s [] []
+def attrs : T := .node "Ign" [] [.node "List" [] []]
+def seg (x : String) : T := .node "PathSegment" [] [.node "Ident" [x] [], leaf "PathArguments::None"]
+def segArgs (x : String) (args : List T) : T := .node "PathSegment" [] [.node "Ident" [x] [],
+  .node "PathArguments::AngleBracketed" [] [.node "Ign" [] [leaf "None"], .node "List" [] args]]
+def path (segs : List T) : T := .node "Path" [] [.node "IgnL" [] [leaf "None"], .node "List" [] segs]
+def tyPath (segs : List T) : T := .node "Type::Path" [] [leaf "None", path segs]
+def tyS (x : String) : T := tyPath [seg x]
+def tyArg (x : T) : T := .node "GenericArgument::Type" [] [x]
+def constArg (e : T) : T := .node "GenericArgument::Const" [] [e]
+/-- `Vec<x>` -/
+def vecOf (x : T) : T := tyPath [segArgs "Vec" [tyArg x]]
+/-- `Arr<a>` for a generic argument `a` -/
+def arrOf (a : T) : T := tyPath [segArgs "Arr" [a]]
+/-- the trait path `Tr<x>` -/
+def trOf (x : T) : T := path [segArgs "Tr" [tyArg x]]
+def tup2 (a b : T) : T := .node "Type::Tuple" [] [.node "List" [] [a, b]]
+def lit (n : String) : T := .node "Expr::Lit" [] [attrs, .node "Lit::Int" [] [.node "Atom" [n] []]]
+/-- `[elem; len]` -/
+def arrayTy (elem len : T) : T := .node "Type::Array" [] [elem, len]
+def p0 : T := .tparam "_ŠČ0"
+def p1 : T := .tparam "_ŠČ1"
+def e0 : T := .eparam "_ŠČ0"
+def vec0 : T := vecOf p0
+def u8 : T := tyS "u8"
+/-- `(_ŠČ0, _ŠČ1)` ⊒ `(Vec<_ŠČ0>, Vec<_ŠČ0>)`: not injective -/
+def σvec : Subst := [("_ŠČ0", .ty vec0), ("_ŠČ1", .ty vec0)]
+/-- `(_ŠČ0, _ŠČ1)` ⊒ `(Vec<u8>, u8)`: the value of `_ŠČ1` occurs inside the value of `_ŠČ0` -/
+def σouter : Subst := [("_ŠČ0", .ty (vecOf u8)), ("_ŠČ1", .ty u8)]
+/-- `(_ŠČ0, _ŠČ1)` ⊒ `(_ŠČ0, _ŠČ0)`: the identity-bound `_ŠČ0` is the value of `_ŠČ1` -/
+def σalias : Subst := [("_ŠČ0", .identity), ("_ŠČ1", .ty p0)]
+/-- `[u8; _ŠČ0]` ⊒ `[u8; 3]` and `Arr<_ŠČ0>` ⊒ `Arr<3>`: a const-expression value -/
+def σconst : Subst := [("_ŠČ0", .ex (lit "3"))]
+def traitBound (p : T) : T :=
+  .node "TypeParamBound::Trait" [] [.node "TraitBound" [] [leaf "None", leaf "TraitBoundModifier::None", leaf "None", p]]
+/-- `Dispatch<Group = g>` -/
+def dispatch (g : String) : T :=
+  path [.node "PathSegment" [] [.node "Ident" ["Dispatch"] [], .node "PathArguments::AngleBracketed" [] [.node "Ign" [] [leaf "None"],
+    .node "List" [] [.node "GenericArgument::AssocType" [] [.node "AssocType" [] [.node "Ident" ["Group"] [], leaf "None", tyS g]]]]]]
+def tyParam (x : String) (bounds : List T) : T :=
+  .node "GenericParam::Type" [] [.node "TypeParam" [] [attrs, .node "Ident" [x] [], leaf "None",
+    .node "List" [] bounds, leaf "None", leaf "None"]]
+/-- `impl<params> Kita for self where bounded: b {}` -/
+def implWhere (params : List T) (self bounded b : T) : T :=
+  .node "ItemImpl" [] [attrs, leaf "None", leaf "None",
+    .node "Generics" [] [leaf "Some", .node "List" [] params, leaf "Some",
+      .node "Some" [] [.node "WhereClause" [] [.node "List" [] [.node "WherePredicate::Type" [] [.node "PredicateType" []
+        [leaf "None", bounded, .node "List" [] [traitBound b]]]]]]],
+    .node "Some" [] [.node "Tuple" [] [leaf "None", path [seg "Kita"]]], self, .node "List" [] []]
+/-- `impl<T> Kita for Arr<T> where Arr<T>: Dispatch<Group = GroupA> {}` -/
+def arrGeneral : T := implWhere [tyParam "T" []] (arrOf (tyArg (tyS "T"))) (arrOf (tyArg (tyS "T"))) (dispatch "GroupA")
+/-- `impl Kita for Arr<3> where Arr<3>: Dispatch<Group = GroupB> {}` -/
+def arrConst : T := implWhere [] (arrOf (constArg (lit "3"))) (arrOf (constArg (lit "3"))) (dispatch "GroupB")
+/-- `impl Kita for Arr<u8> where Arr<u8>: Dispatch<Group = GroupB> {}` -/
+def arrType : T := implWhere [] (arrOf (tyArg u8)) (arrOf (tyArg u8)) (dispatch "GroupB")
+/-- (members, keys) of every family of an accepted grouping -/
+def shape : ParseResult → Option (List (Nat × Nat))
+  | .ok gs => some (gs.map (fun e => (e.2.2.length, e.2.1.bounds.length)))
+  | _ => none
+end ExC10
+
+section ExactExamples
+open ExC10
+set_option maxRecDepth 100000
+
+/-- non-vacuity of `C10_exactly_one_per_choice` / `C10_exact` / `C10_count`: the non-injective header pair
+    `(_ŠČ0, _ŠČ1)` ⊒ `(Vec<_ŠČ0>, Vec<_ŠČ0>)` and a bound mentioning `Vec<_ŠČ0>` twice: four re-expressions, first position
+    slowest, one per way of choosing; a term with a value left in place is not a re-expression -/
+theorem C10_exact_example_four :
+    sup (tup2 p0 p1) (tup2 vec0 vec0) = .yes σvec false ∧ (σvec.map Prod.fst).Nodup ∧
+    offered_rx σvec (.ty vec0) = ["_ŠČ0", "_ŠČ1"] ∧
+    revSub (reverseMap σvec) (tup2 vec0 vec0) = [tup2 p0 p0, tup2 p0 p1, tup2 p1 p0, tup2 p1 p1] ∧
+    reexprCount_rx σvec (tup2 vec0 vec0) = 4 ∧
+    IsReexpr_rx σvec (tup2 vec0 vec0) (tup2 p1 p0) ∧ ¬ IsReexpr_rx σvec (tup2 vec0 vec0) (tup2 p1 vec0) ∧
+    ¬ IsReexpr_rx σvec (tup2 vec0 vec0) (tup2 vec0 vec0) ∧
+    Untouched σvec (tup2 vec0 vec0) ∧ noIdentityAlias_rx σvec = true := by
+  with_unfolding_all decide
+
+/-- non-vacuity of `C10_bound_exact` / `C10_bound_count`: `Vec<_ŠČ0>: Tr<Vec<_ŠČ0>>` has 2 · 2 re-expressions -/
+theorem C10_bound_exact_example :
+    substituteBound σvec vec0 (trOf vec0) = [(p0, trOf p0), (p0, trOf p1), (p1, trOf p0), (p1, trOf p1)] ∧
+    reexprCount_rx σvec vec0 * reexprCount_rx σvec (trOf vec0) = 4 := by
+  with_unfolding_all decide
+
+/-- non-vacuity of `C10_exact_identity`: the identity substitution of `Vec<_ŠČ0>` ⊒ `Vec<_ŠČ0>` -/
+example : sup vec0 vec0 = .yes [("_ŠČ0", .identity)] false ∧ allIdentity [("_ŠČ0", .identity)] = true ∧
+    IsReexpr_rx [("_ŠČ0", .identity)] (tup2 vec0 p0) (tup2 vec0 p0) ∧
+    reexprCount_rx [("_ŠČ0", .identity)] (tup2 vec0 p0) = 1 := by
+  with_unfolding_all decide
+
+/-- a const-expression value: `[u8; _ŠČ0]` ⊒ `[u8; 3]`; the bound `Vec<[u8; 3]>` is re-expressed as `Vec<[u8; _ŠČ0]>`
+    (also non-vacuity of `C10_exact_naive_partial`, `C10_reexpr_roundtrip`, `C10_value_reexpressed_expr`) -/
+theorem C10_exact_example_const :
+    sup (arrayTy u8 e0) (arrayTy u8 (lit "3")) = .yes σconst false ∧ (σconst.map Prod.fst).Nodup ∧
+    revSub (reverseMap σconst) (vecOf (arrayTy u8 (lit "3"))) = [vecOf (arrayTy u8 e0)] ∧
+    IsReexpr_rx σconst (vecOf (arrayTy u8 (lit "3"))) (vecOf (arrayTy u8 e0)) ∧
+    reexprCount_rx σconst (vecOf (arrayTy u8 (lit "3"))) = 1 ∧
+    Untouched σconst (vecOf (arrayTy u8 (lit "3"))) ∧ inst σconst (vecOf (arrayTy u8 e0)) = vecOf (arrayTy u8 (lit "3")) ∧
+    noIdentityAlias_rx σconst = true ∧ ("_ŠČ0", Val.ex (lit "3")) ∈ σconst ∧ exReplaceable_rx (lit "3") = true := by
+  with_unfolding_all decide
+
+/-- (a) D13 against the naive reading: `(_ŠČ0, _ŠČ1)` ⊒ `(_ŠČ0, _ŠČ0)`. Naively `_ŠČ0` may stay (`inst σ _ŠČ0 = _ŠČ0`) or become
+    `_ŠČ1`; the code offers `_ŠČ1` only, so of the four naive re-expressions of `(_ŠČ0, _ŠČ0)` only `(_ŠČ1, _ŠČ1)` is
+    produced (also non-vacuity of `C10_identity_alias_loses`) -/
+theorem C10_identity_alias_exact_counterexample :
+    sup (tup2 p0 p1) (tup2 p0 p0) = .yes σalias false ∧ (σalias.map Prod.fst).Nodup ∧ noIdentityAlias_rx σalias = false ∧
+    offered_rx σalias (.ty p0) = ["_ŠČ1"] ∧ offeredNaive_rx σalias (.ty p0) = ["_ŠČ1", "_ŠČ0"] ∧
+    IsReexprNaive_rx σalias p0 p0 ∧ ¬ IsReexpr_rx σalias p0 p0 ∧ p0 ∉ revSub (reverseMap σalias) p0 ∧ inst σalias p0 = p0 ∧
+    revSub (reverseMap σalias) (tup2 p0 p0) = [tup2 p1 p1] ∧
+    IsReexprNaive_rx σalias (tup2 p0 p0) (tup2 p0 p1) ∧ inst σalias (tup2 p0 p1) = tup2 p0 p0 := by
+  with_unfolding_all decide
+
+/-- (b) outermost wins: `(_ŠČ0, _ŠČ1)` ⊒ `(Vec<u8>, u8)`. The bound `Vec<u8>` is re-expressed as `_ŠČ0` only; `Vec<_ŠČ1>`
+    instantiates back to `Vec<u8>` too but is not produced, because nothing below a replaced sub-term is looked at
+    (also non-vacuity of `C10_outermost_wins_type`, `C10_value_reexpressed_type`) -/
+theorem C10_outermost_counterexample :
+    sup (tup2 p0 p1) (tup2 (vecOf u8) u8) = .yes σouter false ∧ (σouter.map Prod.fst).Nodup ∧
+    isTypeKind "Type::Path" = true ∧ offered_rx σouter (.ty (vecOf u8)) = ["_ŠČ0"] ∧
+    revSub (reverseMap σouter) (vecOf u8) = [p0] ∧
+    inst σouter (vecOf p1) = vecOf u8 ∧ vecOf p1 ∉ revSub (reverseMap σouter) (vecOf u8) ∧
+    ¬ IsReexpr_rx σouter (vecOf u8) (vecOf p1) ∧
+    revSub (reverseMap σouter) (tup2 (vecOf u8) u8) = [tup2 p0 p1] ∧
+    ("_ŠČ0", Val.ty (vecOf u8)) ∈ σouter ∧ tyReplaceable_rx (vecOf u8) = true := by
+  with_unfolding_all decide
+
+/-- (c) kinds: an `.ex` value that is a type-kind node is never recognised (a type-kind node is looked up as `.ty` only),
+    although the const parameter instantiates to it -/
+theorem C10_kind_counterexample_expr_value :
+    let σ : Subst := [("_ŠČ0", .ex (leaf "Type::A"))]
+    sup e0 (leaf "Type::A") = .yes σ false ∧ revSub (reverseMap σ) (leaf "Type::A") = [leaf "Type::A"] ∧
+    inst σ e0 = leaf "Type::A" ∧ exReplaceable_rx (leaf "Type::A") = false := by
+  with_unfolding_all decide
+
+/-- (c) kinds, the other way round: a `.ty` value that is an expression-kind node -/
+theorem C10_kind_counterexample_type_value :
+    let σ : Subst := [("_ŠČ0", .ty (leaf "Expr::A"))]
+    sup p0 (leaf "Expr::A") = .yes σ false ∧ revSub (reverseMap σ) (leaf "Expr::A") = [leaf "Expr::A"] ∧
+    inst σ p0 = leaf "Expr::A" ∧ tyReplaceable_rx (leaf "Expr::A") = false := by
+  with_unfolding_all decide
+
+/-- (c) kinds on well-kinded trees: the identifier `N` as a type (`Arr<N>`, a `Type::Path` to `syn`) and as an expression
+    (`[N; N]`'s length, an `Expr::Path`) are different values; with `_ŠČ0 ↦ .ty N` the element type is rewritten, the
+    length is not -/
+theorem C10_kind_same_token :
+    let σ : Subst := [("_ŠČ0", .ty (tyS "N"))]
+    let exprN : T := .node "Expr::Path" [] [attrs, leaf "None", path [seg "N"]]
+    sup (arrOf (tyArg p0)) (arrOf (tyArg (tyS "N"))) = .yes σ false ∧
+    revSub (reverseMap σ) (arrayTy (tyS "N") exprN) = [arrayTy p0 exprN] := by
+  with_unfolding_all decide
+
+/-- (d) a value whose root is neither type-kind nor expression-kind (here a `Path`) is never recognised: such nodes are
+    never replaced as a whole (`C10_reexpr_other_node`). The matcher of the model is untyped and can be made to produce
+    such a binding; on trees printed by `syn` a type parameter only faces types. -/
+theorem C10_nonreplaceable_value_counterexample :
+    let σ : Subst := [("_ŠČ0", .ty (path [seg "A"]))]
+    sup p0 (path [seg "A"]) = .yes σ false ∧ revSub (reverseMap σ) (path [seg "A"]) = [path [seg "A"]] ∧
+    inst σ p0 = path [seg "A"] ∧ tyReplaceable_rx (path [seg "A"]) = false := by
+  with_unfolding_all decide
+
+/-- (d) the const generic argument. A TYPE parameter in generic-argument position may bind a const argument:
+    `Arr<_ŠČ0>` ⊒ `Arr<3>` with `_ŠČ0 ↦ .ex 3` (path.rs:173-179). The generic argument node itself
+    (`GenericArgument::Const [3]`) is neither type- nor expression-kind, so only the expression inside it is replaced:
+    the bound `Arr<3>` is re-expressed as `Arr<C>` with `C = GenericArgument::Const [eparam _ŠČ0]`, whereas the general
+    header spells the same thing `Arr<GenericArgument::Type [tparam _ŠČ0]>`. Both instantiate back to `Arr<3>` (the round
+    trip holds, `Untouched` holds), but they are different trees: the general spelling is not produced, and the produced
+    key is not equal (`keyEq`, structural on the bounded type) to the general block's key, so `findKey` misses it. -/
+theorem C10_const_argument_spelling :
+    let t := arrOf (constArg (lit "3"))
+    let r := arrOf (constArg e0)
+    let g := arrOf (tyArg p0)
+    sup g t = .yes σconst false ∧ (σconst.map Prod.fst).Nodup ∧ Untouched σconst t ∧
+    revSub (reverseMap σconst) t = [r] ∧ inst σconst r = t ∧
+    inst σconst g = t ∧ g ∉ revSub (reverseMap σconst) t ∧ ¬ IsReexpr_rx σconst t g ∧
+    keyEq (g, dispatch "GroupA") (r, dispatch "GroupB") = false ∧
+    findKey [((g, dispatch "GroupA"), [[("Group", tyS "GroupA")]])] (r, dispatch "GroupB") = none := by
+  with_unfolding_all decide
+
+/-- (d) end to end in the model: `impl<T> Kita for Arr<T> where Arr<T>: Dispatch<Group = GroupA>` followed by
+    `impl Kita for Arr<3> where Arr<3>: Dispatch<Group = GroupB>`: the headers nest with `_ŠČ0 ↦ .ex 3`, but the second
+    block is NOT folded into the family of the first (two families with one member each), because its re-expressed key
+    is not found; with the type argument `Arr<u8>` in place of `Arr<3>` one family with two members results. -/
+theorem C10_const_argument_not_folded :
+    sup (groupIdOf (mkBlk arrGeneral).item) (groupIdOf (mkBlk arrConst).item) = .yes σconst false ∧
+    (mkBlk arrGeneral).raw.map (fun rb => (rb.bounded, rb.tr)) = [(arrOf (tyArg p0), dispatch "GroupA")] ∧
+    (mkBlk arrConst).raw.map (fun rb => (rb.bounded, rb.tr)) = [(arrOf (constArg (lit "3")), dispatch "GroupB")] ∧
+    shape (parseGroups [arrGeneral, arrConst]) = some [(1, 1), (1, 1)] ∧
+    shape (parseGroups [arrGeneral, arrType]) = some [(2, 1)] := by
+  with_unfolding_all decide
+
+/-- (e) values are compared syntactically, not modulo presentation: the matcher ignores the contents of `Ign` children
+    (here the turbofish `::` of `Vec::<u8>`), the reverse map does not. With `_ŠČ0 ↦ Vec<u8>` the bound `Vec::<u8>` is left
+    as it is although it equals the value modulo presentation (`erase`) and the matcher accepts it for `Vec<u8>`. -/
+theorem C10_presentation_counterexample :
+    let σ : Subst := [("_ŠČ0", .ty (vecOf u8))]
+    let turbo : T := tyPath [.node "PathSegment" [] [.node "Ident" ["Vec"] [],
+      .node "PathArguments::AngleBracketed" [] [.node "Ign" [] [leaf "Some"], .node "List" [] [tyArg u8]]]]
+    sup p0 (vecOf u8) = .yes σ false ∧ sup (vecOf u8) turbo = .yes [] false ∧ erase turbo = erase (vecOf u8) ∧
+    revSub (reverseMap σ) turbo = [turbo] ∧ revSub (reverseMap σ) (vecOf u8) = [p0] := by
+  with_unfolding_all decide
+
+/-- non-vacuity of the kind hypotheses of `C10_reexpr_*_node`, `C10_outermost_wins_*` -/
+example :
+    isTypeKind "Type::Path" = true ∧
+    (isTypeKind "Expr::Lit" = false ∧ isExprKind "Expr::Lit" = true ∧ offered_rx σconst (.ex (lit "3")) ≠ []) ∧
+    (isTypeKind "IgnL" = false ∧ isExprKind "IgnL" = false ∧ isVerbatimKind "IgnL" = true) ∧
+    (isTypeKind "GenericArgument::Const" = false ∧ isExprKind "GenericArgument::Const" = false ∧
+      isVerbatimKind "GenericArgument::Const" = false) := by
+  with_unfolding_all decide
+
+end ExactExamples
 
 end DI
